@@ -21,13 +21,22 @@ def Mem_GetHash : List String := ["mu.RLock", "@m.data", "{ret", "mu.RUnlock", "
 def Mem_GetList : List String := ["m.Get", "{ret", "}", "{ret", "}"]
 def Mem_Incr : List String := ["m.IncrBy"]
 def Mem_IncrBy : List String := ["mu.Lock", "defer mu.Unlock", "@m.data", "Add", "@m.data", "IsZero", "@item.Expiration", "After", "@item.Expiration", "@item.Value", "@item.Expiration", "Add", "@item.Value", "{ret", "@item.Value", "}"]
+def Mem_QueryByPrefix : List String := ["mu.RLock", "defer mu.RUnlock", "@m.data", "{ret", "}", "@m.data", "IsZero", "@item.Expiration", "After", "@item.Expiration", "@item.Value", "@item.Value"]
 def Mem_RemoveFromList : List String := ["mu.Lock", "defer mu.Unlock", "@m.data", "{ret", "}", "IsZero", "@item.Expiration", "After", "@item.Expiration", "{ret", "delete", "@m.data", "}", "@item.Value", "{ret", "@item.Value", "}"]
 def Mem_Set : List String := ["mu.Lock", "defer mu.Unlock", "@m.data", "@m.data", "Add", "@m.data"]
 def Mem_SetExpiration : List String := ["mu.Lock", "defer mu.Unlock", "@m.data", "{ret", "}", "IsZero", "@item.Expiration", "After", "@item.Expiration", "{ret", "delete", "@m.data", "}", "@item.Expiration", "expirationFor"]
 def Mem_SetHash : List String := ["mu.Lock", "defer mu.Unlock", "@m.data", "@m.data", "@m.data", "Add", "@m.data", "IsZero", "@item.Expiration", "After", "@item.Expiration", "@item.Value", "@item.Expiration", "Add", "@hash", "@item.Value", "{ret", "@hash", "}", "@item.Value", "@hash", "@item.Value", "@hash"]
 def Mem_SetList : List String := ["m.Set"]
 def Mem_SetNX : List String := ["mu.Lock", "defer mu.Unlock", "@m.data", "IsZero", "@item.Expiration", "After", "@item.Expiration", "{ret", "}", "delete", "@m.data", "Add", "@m.data"]
+def Mem_Watch : List String := ["mu.RLock", "@m.data", "IsZero", "@item.Expiration", "After", "@item.Expiration", "@item.Value", "mu.RUnlock"]
+def Mem_ZAdd : List String := ["mu.Lock", "defer mu.Unlock", "@m.data", "@m.data", "@m.data", "@m.data", "@item.Value", "{ret", "@item.Value", "}", "@item.Value"]
+def Mem_ZCard : List String := ["mu.RLock", "defer mu.RUnlock", "@m.data", "{ret", "}", "@m.data", "{ret", "}", "@item.Value", "{ret", "}"]
+def Mem_ZRangeByScore : List String := ["mu.RLock", "defer mu.RUnlock", "@m.data", "{ret", "}", "@m.data", "{ret", "}", "@item.Value", "{ret", "}"]
+def Mem_ZRem : List String := ["mu.Lock", "defer mu.Unlock", "@m.data", "{ret", "}", "@m.data", "{ret", "}", "@item.Value", "{ret", "}", "@item.Value"]
+def Mem_ZRemRangeByScore : List String := ["mu.Lock", "defer mu.Unlock", "@m.data", "{ret", "}", "@m.data", "{ret", "}", "@item.Value", "{ret", "}", "@item.Value"]
+def Mem_ZScore : List String := ["mu.RLock", "defer mu.RUnlock", "@m.data", "{ret", "}", "@m.data", "{ret", "}", "@item.Value", "{ret", "}", "{ret", "}"]
 def Mem_expirationFor : List String := ["{ret", "}", "Add"]
+def Mem_onClose : List String := ["mu.Lock", "defer mu.Unlock", "@m.data"]
 def Repo_Cleanup_Acquire : List String := ["SetNX", "Get", "Delete", "Delete", "Delete", "Delete", "Delete", "CompareAndSwap", "Delete", "Delete"]
 def Repo_Cleanup_Complete : List String := ["Delete", "Get", "Delete", "CompareAndSwap"]
 def Repo_Cleanup_Register : List String := ["Exists", "Set"]
